@@ -26,7 +26,7 @@ for S in ${@:-seeded/*}; do
   done
   RUNRE="^(${RUNRE#|})\$"
   PKGS=$(echo $PKGS | tr ' ' '\n' | sort -u | tr '\n' ' ')
-  RACE=""; grep -qi -- '-race' $S/notes.md 2>/dev/null && RACE="-race"
+  RACE=""; grep -qi -- "-race" $S/notes.md 2>/dev/null && RACE="-race"; [ -n "$NORACE" ] && RACE=""
   demo() { (cd $WT && rm -f crolt/my.db && timeout 600 go test -mod=mod -vet=off -count=1 $RACE -run "$RUNRE" $PKGS > /tmp/cs-$B.$1.log 2>&1; echo $?); }
   # (3) without the change
   R_WITHOUT=$(demo without)
